@@ -55,7 +55,11 @@ impl Renderer {
 	pub fn on_change_sample_rate(&mut self, sample_rate: u32) {
 		self.dt = 1.0 / sample_rate as f64;
 		self.shared.sample_rate.store(sample_rate, Ordering::SeqCst);
+		#[cfg(kira_verif)]
+		crate::verif::point("rate.stored");
 		self.resources.mixer.on_change_sample_rate(sample_rate);
+		#[cfg(kira_verif)]
+		crate::verif::point("rate.walked");
 	}
 
 	/// Called by the backend when it's time to process
